@@ -298,6 +298,17 @@ def run(ck, tier, rng):
         decks = pref if len(pref) >= 4 else decks[::max(1, len(decks) // 8)][:8]
     cases = gen_cases(tier, rng, decks)
     tmp = tempfile.mkdtemp(prefix="c16-")
+    # a deck whose main part is declared with either standard presentation type (.pptx / macro-enabled .pptm) opens: judged
+    # against the literal types, not against the table translated from the tree (which a change of a constant would follow)
+    for t in (oc.STD_PPTX_MAIN, oc.STD_MACRO_MAIN):
+        base0 = oc.read_zip(open(decks[0], "rb").read())
+        r0, detail0 = impl_open(materialise(build_case(base0, [("wrong-main", t)]), None, "stream", tmp)[0])
+        ck.count(("standard-main-type", t), True, "standard-main-type")
+        if (r0 if isinstance(r0, str) else r0[0]) != "ok":
+            ck.violation("standard-main-type-refused", "a deck whose main part is declared %s is refused: %s (%s)" % (t, r0, detail0),
+                         rec_for(os.path.relpath(decks[0], REPO), [("wrong-main", t)], None, "stream"))
+        if t not in meta.get("pres_cts", [t]):
+            ck.notes.append("the tree's table of presentation main types lacks the standard type %s" % t)
     pay = oc.Payloads()
     results, wires, pkgs = [], [], []
     try:
